@@ -470,7 +470,7 @@ impl Prop for C08 {
         let sink = SimSink::new(&Sched::Full);
         let w = s.write(&case.cfg, &case.ops, sink.clone());
         if w.panic.is_some() || w.from_config_err.is_some() || w.results.iter().any(Result::is_err) {
-            v.push(Violation::new("workload-write-failed", "write", format!("{:?} {:?}", w.panic, w.results.iter().find(|r| r.is_err()))));
+            v.push(Violation::new("workload-write-failed", "write", format!("writing the workload failed: panic {:?}, from_config {:?}, first failed call {:?}", w.panic, w.from_config_err, w.results.iter().find(|r| r.is_err()))));
             return v;
         }
         let base = sink.data();
